@@ -33,7 +33,7 @@ BOUNDS = {"quick": "start models + depth 1 (full alphabet), capped at 40 states;
           "thorough": "depth 2, capped at 400 states"}
 
 START = ["pheno", "pheno_oral", "pheno_linear"]
-EXCLUDE = {"print_model_code", "print_model_symbols", "display_odes", "write_model", "write_csv", "plot_vpc", "bump_model_number",
+EXCLUDE = {"print_model_code", "print_model_symbols", "display_odes", "write_csv", "plot_vpc", "bump_model_number",
            "load_dataset", "set_dataset", "create_config_template", "read_model", "read_model_from_string", "load_example_model",
            "solve_ode_system", "plot_abs_cwres_vs_ipred", "plot_cwres_vs_idv", "plot_dv_vs_ipred", "plot_dv_vs_pred",
            "plot_eta_distributions", "plot_individual_predictions", "plot_transformed_eta_distributions"}
@@ -84,6 +84,12 @@ def snapshot(model):
         h.update(repr(list(df.index[:5])).encode() + repr(len(df.index)).encode())
         h.update(pd.util.hash_pandas_object(df, index=True).values.tobytes())
         out["dataset"] = h.hexdigest()
+    iie = model.initial_individual_estimates
+    if iie is None:
+        out["initial_individual_estimates"] = None
+    else:
+        out["initial_individual_estimates"] = repr(list(iie.columns)) + hashlib.sha1(
+            pd.util.hash_pandas_object(iie, index=True).values.tobytes()).hexdigest()
     out["datainfo"] = json.dumps(model.datainfo.to_dict(), sort_keys=True, default=str)
     out["parameters"] = json.dumps(model.parameters.to_dict(), sort_keys=True, default=str)
     out["random_variables"] = json.dumps(model.random_variables.to_dict(), sort_keys=True, default=str)
@@ -105,6 +111,10 @@ def diff_snap(a, b):
 
 
 # ------------------------------------------------------------------------------- call table
+class ArgumentMutated(Exception):
+    pass
+
+
 def arg_menus(model):
     """name -> list of (args, kwargs) for functions that need more than the model"""
     import pharmpy.modeling as pm
@@ -224,6 +234,35 @@ def call_table(model):
     from pharmpy.workflows import ModelEntry
     from pharmpy.workflows.hashing import ModelHash
 
+    import shutil
+    import tempfile
+
+    def write_to_scratch(m):
+        import pharmpy.modeling as pm2
+
+        d = tempfile.mkdtemp(prefix="verif-c06-")
+        try:
+            return pm2.write_model(m, d + "/written.mod", force=True)
+        finally:
+            shutil.rmtree(d, ignore_errors=True)
+
+    calls = [c for c in calls if not c[0].startswith("write_model")]
+    calls.append(("write_model(scratch)", write_to_scratch))
+    from vlib import mgraph as _mg
+
+    def iie_call(m):
+        import pharmpy.modeling as pm2
+
+        df = _mg.individual_estimates_table(m, offset=0.01)
+        df["ETA_NOT_IN_MODEL"] = 0.5
+        before = df.copy()
+        try:
+            return pm2.update_initial_individual_estimates(m, df)
+        finally:
+            if not df.equals(before) or list(df.columns) != list(before.columns):
+                raise ArgumentMutated("update_initial_individual_estimates changes the DataFrame passed as individual_estimates")
+
+    calls.append(("update_initial_individual_estimates(table with an extra column)", iie_call))
     calls.append(("ModelHash()", lambda m: str(ModelHash(m))))
     calls.append(("ModelEntry.create()", lambda m: ModelEntry.create(model=m)))
     calls.append(("copy.deepcopy()", lambda m: copy.deepcopy(m)))
@@ -236,6 +275,23 @@ def call_table(model):
     except Exception:
         pass
     return calls
+
+
+USE_RESULT = {"remove_iiv", "add_iiv", "create_joint_distribution", "split_joint_distribution", "add_iov", "remove_iov", "set_zero_order_absorption",
+              "set_first_order_absorption", "add_peripheral_compartment", "add_metabolite", "add_time_after_dose", "add_cmt", "add_admid"}
+
+
+def write_to_scratch_model(m):
+    import shutil
+    import tempfile
+
+    import pharmpy.modeling as pm2
+
+    d = tempfile.mkdtemp(prefix="verif-c06-")
+    try:
+        pm2.write_model(m, d + "/written.mod", force=True)
+    finally:
+        shutil.rmtree(d, ignore_errors=True)
 
 
 # ------------------------------------------------------------------------------- well-formedness
@@ -320,10 +376,25 @@ def check_state(hist, model, tier):
                     res = fn(model)
         except mgraph.CallTimeout:
             counters["calls_timeout"] += 1
+        except ArgumentMutated as e:
+            fails.append(f"{label.split('(')[0]}: {e} [call {label[:80]}]")
         except BaseException as e:
             if isinstance(e, (KeyboardInterrupt, SystemExit)):
                 raise
             counters["calls_raised"] += 1
+        # use the result the way a caller would (generate its code, write it) before looking at the argument again: a
+        # result that shares state with its argument may only change it when it is used
+        wf = None
+        if isinstance(res, Model) and res is not model:
+            try:
+                with warnings.catch_warnings():
+                    warnings.simplefilter("ignore")
+                    with mgraph.time_limit(30):
+                        wf = wellformed(res)
+                        if hasattr(res, "internals") and res.dataset is not None and label.split("(")[0] in USE_RESULT:
+                            write_to_scratch_model(res)
+            except BaseException:
+                pass
         after = snapshot(model)
         d = diff_snap(snap, after)
         if d:
@@ -337,7 +408,12 @@ def check_state(hist, model, tier):
         if isinstance(res, Model) and res is not model:
             counters["models_returned"] += 1
             counters["distinct_nontrivial"] = counters.get("distinct_nontrivial", 0) + 1
-            for w in wellformed(res):
+            try:
+                if res == model and hash(res) != hash(model):
+                    fails.append(f"{label.split('(')[0]}: equality: returns a model that is == its argument but has a different hash [call {label[:80]}]")
+            except Exception as e:
+                fails.append(f"{label.split('(')[0]}: equality: comparing/hashing the returned model raises {type(e).__name__}: {str(e)[:80]}")
+            for w in (wf if wf is not None else []):
                 fails.append(f"{label.split('(')[0]}: returns a model that is not well formed: {w} [call {label[:80]}]")
     return fails, counters
 
